@@ -1,7 +1,6 @@
 """C07 — reading any bytes either fails cleanly or yields a safe, well-formed table.
 Proof: PsV/Props/C07.lean (C07_read_total, C07_error_leaves_empty, WF_implies_C04, readFixed_sound, counterexamples for the code
-before the repair).  Model: PsV/Model/FitsRead.lean (`readFixed` = read_fits_core with fixes/C07-1.diff, `cleanup` = the scope guard of
-fixes/C07-2.diff, `destroy` = ~splinetable).
+before the repair).  Model: PsV/Model/FitsRead.lean (`readFixed` = read_fits_core with fixes/C07-1.diff, `cleanup` = the storage guard of commit 907b348, `destroy` = ~splinetable).
 Tie: mutated files → real read_fits_mem / read_fits / constructor / C wrappers (each file in a forked child under ASan/UBSan with a
 hang timeout) vs `readFixed (decodeFits bytes)` whenever the Lean decoder accepts the bytes and the store is inside the scope of the
 abstract cfitsio model; oracle (independent of the model): every returned table is well-formed (fitscommon.wf_table), every failed
